@@ -419,6 +419,18 @@ class ExternalVariableCollector(NodeVisitor):
                 self.visit(expr)
         for expr in getattr(node, "decorator_list", []):
             self.visit(expr)
+        # (so are the annotations of a nested def, when it is executed)
+        for arg in [
+            *getattr(args, "posonlyargs", []),
+            *args.args,
+            args.vararg,
+            *args.kwonlyargs,
+            args.kwarg,
+        ]:
+            if arg is not None and arg.annotation is not None:
+                self.visit(arg.annotation)
+        if getattr(node, "returns", None) is not None:
+            self.visit(node.returns)
         self.used |= _NestedScopeReads(node).reads
 
     def visit_ClassDef(self, node):
